@@ -39,6 +39,7 @@ def plan(tier, seed):
     specs += shards("roundtrip", 1, 1, seed, L=4 if q else 5)
     specs += shards("roundtrip_unicode", 4000 if q else 200000, 1000 if q else 10000, seed)
     specs += shards("tables", 3000 if q else 100000, 500 if q else 5000, seed)
+    specs += [{"family": "threads", "seed": seed + k, "n": 1, "rounds": 60 if q else 600} for k in range(2 if q else 8)]
     return specs
 
 
@@ -131,6 +132,58 @@ def gen_table(r):
     return rows, dev
 
 
+_REUSED = {}
+
+
+def run_threads(spec, M):
+    """Several threads, each with Parser objects of its own, parse documents with tables at the same time (1 us switch
+    interval): cells, counts and errors are what each document gives alone."""
+    import sys
+    import threading
+    r = rng(spec["seed"], ID, "threads")
+    texts = []
+    for k in range(12):
+        rows, dev = gen_table(r)
+        wide = "    | " + " | ".join("cell %d %s" % (j, "x" * r.randint(0, 30)) for j in range(r.randint(3, 12))) + " |"
+        texts.append("Feature: f\n  Scenario: s\n    Given x\n" + "\n".join("    " + x.strip() for x in rows) + "\n    Then y\n" + "\n".join([wide] * r.randint(1, 6)) + "\n")
+
+    def outcome(text):
+        from gherkin.parser import Parser
+        from gherkin.errors import ParserError, CompositeParserException
+        try:
+            return ("ok", Parser().parse(text))
+        except CompositeParserException as e:
+            return ("err", [str(x) for x in e.errors])
+        except ParserError as e:
+            return ("err", [str(e)])
+        except Exception as e:
+            return ("crash", repr(e)[:160])
+    solo = [outcome(t) for t in texts]
+    results, old = {}, sys.getswitchinterval()
+
+    def work(t):
+        for n in range(spec["rounds"]):
+            j = (t * 5 + n) % len(texts)
+            results[(t, n)] = (j, outcome(texts[j]))
+    sys.setswitchinterval(1e-6)
+    try:
+        ths = [threading.Thread(target=work, args=(t,)) for t in range(6)]
+        for t in ths:
+            t.start()
+        for t in ths:
+            t.join()
+    finally:
+        sys.setswitchinterval(old)
+    M.count("threaded_table_parses", len(results))
+    M.case(h64(["threads", spec["seed"]]))
+    bad = [(key, j) for key, (j, res) in results.items() if res != solo[j]]
+    if bad:
+        (t, n), j = bad[0]
+        M.violation("C12.threads", {"what": "a document with tables parsed while other threads parse other documents (own Parser objects) gives another result than alone",
+                                    "deviating": len(bad), "of": len(results), "alone": short(solo[j], 200), "threaded": short(results[(t, n)][1], 200)},
+                    {"kind": "threads", "seed": spec["seed"], "rounds": spec["rounds"]})
+
+
 def check_table(r, M, idx):
     rows, dev = gen_table(r)
     variant = r.choice(["data", "examples", "data-in-background", "examples-second"])
@@ -186,6 +239,24 @@ def check_table(r, M, idx):
     elif o.err_messages() != [want]:
         M.violation("C12.table", {"what": "ragged table not reported exactly once at its first deviating row",
                                   "got": o.err_messages()[:3], "want": want}, case)
+    # the same ragged table on a Parser object that has just rejected it (or another ragged table) once already
+    from gherkin.parser import Parser as _P
+    if "p" not in _REUSED:
+        _REUSED["p"] = _P()
+    for again in range(2):
+        o3 = observe.parse_observed(text, parser=_REUSED["p"])
+        M.count("ragged_tables_on_reused_parser")
+        if o3.err_messages() != [want]:
+            M.violation("C12.table", {"what": "ragged table not reported (exactly once, at its first deviating row) by a Parser object that has rejected ragged tables before",
+                                      "attempt": again + 1, "got": o3.err_messages()[:3], "status": o3.status, "want": want}, case)
+            break
+    # ... and through the stream whatever is switched off for printing
+    opts = [(a, b, c) for a in (True, False) for b in (True, False) for c in (True, False)][idx % 8]
+    st4, envs4, opened4, _ = observe.enum_observed(text, uri="t.feature", options=opts)
+    M.count("ragged_tables_through_stream")
+    if st4 != "ok" or [e.get("parseError", {}).get("message") for e in envs4] != [want]:
+        M.violation("C12.table", {"what": "ragged table: the stream (print options %s) does not yield exactly the one parseError" % (opts,),
+                                  "got": short(envs4, 200)}, case)
     # stop mode raises the same error
     o2 = observe.parse_observed(text, stop=True)
     if o2.err_messages() != [want]:
@@ -241,6 +312,8 @@ def run_shard(spec, M):
                 v = v[:-1]
             M.case(h64("rtu" + v))
             check_roundtrip(v, M, {"kind": "roundtrip", "value": v})
+    elif fam == "threads":
+        run_threads(spec, M)
     elif fam == "tables":
         for i in range(spec["start"], spec["start"] + spec["n"]):
             check_table(rng(spec["seed"], ID, "tables", i), M, i)
@@ -252,6 +325,8 @@ def replay(case, M):
         line_level(case["row"], M)
     elif k == "parse-row":
         full_parse(case["row"], M)
+    elif k == "threads":
+        run_threads({"seed": case["seed"], "rounds": 600}, M)
     elif k == "roundtrip":
         check_roundtrip(case["value"], M, case)
     else:
